@@ -20,17 +20,41 @@ def type_boundary_coeffs():
     return out
 
 
+TYPE_MAXIMA = ((1 << 31) - 1, (1 << 32) - 1, (1 << 63) - 1, (1 << 64) - 1, M)
+
+
+def type_scaled_thresholds():
+    """(value, k): floor(T / 10^k) + d for the maxima T of the primitive types, k = 1..18, d = -2..2, both signs -
+    the thresholds of "does it still fit after scaling by 10^k" tests for every integer width."""
+    out = []
+    for T in TYPE_MAXIMA:
+        for k in range(1, 19):
+            base = T // P10[k]
+            for d in (-2, -1, 0, 1, 2):
+                v = base + d
+                if 0 < v <= M:
+                    out.append((v, k))
+                    out.append((-v, k))
+    return out
+
+
 _TB = None
+_TS = None
 
 
 def coeff(rng):
     """A coefficient in [-M, M], biased towards the places where code branches."""
     global _TB
-    k = rng.randrange(17)
+    global _TS
+    k = rng.randrange(18)
     if k == 16:
         if _TB is None:
             _TB = type_boundary_coeffs()
         return rng.choice(_TB)
+    if k == 17:
+        if _TS is None:
+            _TS = type_scaled_thresholds()
+        return rng.choice(_TS)[0]
     if k == 0:
         c = rng.choice((0, 1, 2, 5, 9, 10))
     elif k == 1:
@@ -163,3 +187,31 @@ def wrap_twin(a, k):
         return None
     w = ((v + (1 << 127)) % (1 << 128)) - (1 << 127)
     return w if abs(w) <= M else None
+
+
+def split_values(rng, s, n=6):
+    """Coefficients Q * 10^s + r that sit at the seams of a split at s digits: r in {0, 1, 10^s - 1, 10^s - 2, half,
+    half +- 1}, Q at floor(T / 10^s) +- 2 for the maxima T of the primitive types (where narrow fast paths, reciprocal
+    tables and range guards change behaviour), plus random Q. s may be up to 38."""
+    t = 10 ** s
+    rs = [0, 1, t - 1, t - 2, t // 2, t // 2 + 1, t // 2 - 1]
+    # remainders that are multiples of a primitive type's width (a remainder test squeezed into a narrower integer)
+    for w in (1 << 32, 1 << 63, 1 << 64):
+        for j in (1, 3, rng.randrange(1, 1 << 20)):
+            if w * j < t:
+                rs.append(w * j)
+    qs = []
+    for T in TYPE_MAXIMA:
+        base = T // t
+        for d in (-2, -1, 0, 1):
+            if base + d >= 0:
+                qs.append(base + d)
+    for _ in range(n):
+        qs.append(rng.randrange(0, M // t + 1))
+    out = []
+    for q in qs:
+        for r in rs:
+            c = q * t + r
+            if 0 < c <= M and r >= 0:
+                out.append(c)
+    return out
